@@ -323,8 +323,11 @@ pub fn supervise(a: SupArgs) -> Outcome {
         println!("VIOLATION property={} replay=<none: {} further violation signatures were only counted; rerun with a smaller sample>", prop.id(), extra_unknown);
         exit = 1;
     }
-    for (what, n) in &known_hits {
-        println!("KNOWN-FINDING: property={} {} [{} cases in this run]", prop.id(), what, n);
+    // every listed finding of this property is announced, with how often this run's sample hit it
+    for f in known.findings.iter().filter(|f| f.0 == prop.id()) {
+        let key = format!("{} [{} / {}]", f.3, f.1, f.2);
+        let n = known_hits.get(&key).copied().unwrap_or(0);
+        println!("KNOWN-FINDING: property={} {} [{} / {}] (observed in {} cases of this run)", prop.id(), f.3, f.1, f.2, n);
     }
     let wall = t0.elapsed().as_secs_f64();
     crate::evidence::write(&a, prop, &m, total, wall, reported, &known_hits, &replay_paths);
